@@ -67,6 +67,7 @@ type Contract struct {
 	Opaque   bool // module function deliberately treated as extern (body outside the subset)
 	Split    []*SExpr // interface-valued expressions: every post is proved once per dynamic type
 	SplitTxt []string
+	SplitRet bool     // prove every postcondition separately per return statement
 	Safety   []string // properties under which safe.*/nofatal/nopanic obligations are generated (default: all)
 	GhostDo  []*GhostAssign
 	GhostRet []*GhostAssign // ghost statements executed at exit (results in scope)
@@ -85,7 +86,8 @@ type GhostAssign struct {
 // parameter names bound to the actual arguments.
 type AtCall struct {
 	Clause *Clause
-	Callee string // method or function name, e.g. "SetPwm"
+	Callee string       // method or function name, e.g. "SetPwm"
+	Assign *GhostAssign // "atcall ghost Callee: g := expr": ghost statement executed just before the call
 }
 
 type PureFn struct {
@@ -130,7 +132,7 @@ var clauseKeywords = map[string]bool{
 	"func": true, "extern": true, "pure": true, "ghost": true, "props": true, "requires": true, "ensures": true,
 	"modifies": true, "loop": true, "invariant": true, "decreases": true, "nofatal": true, "overflow": true,
 	"let": true, "trusted": true, "returns": true, "fatal": true, "assume": true, "callback": true,
-	"lemma": true, "sentinel": true, "iface": true, "share": true, "effectfree": true, "opaque": true, "end": true, "ghostdo": true, "ghostret": true, "atcall": true, "split": true, "safety": true,
+	"lemma": true, "sentinel": true, "iface": true, "share": true, "effectfree": true, "opaque": true, "end": true, "ghostdo": true, "ghostret": true, "atcall": true, "split": true, "safety": true, "splitreturns": true,
 }
 
 var labelRe = regexp.MustCompile(`^(requires|ensures|invariant|assume)\[([^\]]*)\]\s*(.*)$`)
@@ -453,6 +455,10 @@ func (cs *Contracts) parseFile(p *Program, pkgPath, file, src string) error {
 			}
 			cur.Split = append(cur.Split, x)
 			cur.SplitTxt = append(cur.SplitTxt, strings.TrimSpace(rc.text))
+		case "splitreturns":
+			if cur != nil {
+				cur.SplitRet = true
+			}
 		case "safety":
 			if cur == nil {
 				return fail(rc, "safety outside func")
@@ -492,9 +498,24 @@ func (cs *Contracts) parseFile(p *Program, pkgPath, file, src string) error {
 			if cur == nil {
 				return fail(rc, "atcall outside func")
 			}
-			// atcall[label] Callee: expr
+			// atcall[label] Callee: expr   |   atcall ghost Callee: name := expr
 			t := rc.text
 			lbl := ""
+			if strings.HasPrefix(t, "ghost ") {
+				t = strings.TrimSpace(t[6:])
+				i := strings.Index(t, ":")
+				j := strings.Index(t, ":=")
+				if i < 0 || j < 0 || j <= i {
+					return fail(rc, "atcall ghost CALLEE: NAME := EXPR")
+				}
+				v, err := parseSpecExpr(strings.TrimSpace(t[j+2:]))
+				if err != nil {
+					return fail(rc, "%v", err)
+				}
+				cur.AtCalls = append(cur.AtCalls, &AtCall{Callee: strings.TrimSpace(t[:i]), Clause: &Clause{Kind: "atcall"},
+					Assign: &GhostAssign{Name: strings.TrimSpace(t[i+1 : j]), Val: v, Text: t}})
+				continue
+			}
 			if strings.HasPrefix(t, "[") {
 				j := strings.Index(t, "]")
 				lbl = t[1:j]
